@@ -28,6 +28,32 @@ sys.path.insert(0, HERE)
 from vlib import core  # noqa: E402
 
 
+def run_demo(path):
+    """A regression given as a standalone program (hunt/<Cxx>/demoK.py): it takes
+    the package from PYTHONPATH, builds its own input, compares with a reference
+    and exits non-zero while the defect exists.  -> list of violations"""
+    import subprocess
+    import tempfile
+
+    env = dict(os.environ, PYTHONPATH=core.REPO, PYTHONWARNINGS="ignore", PYTHONHASHSEED="0")
+    with tempfile.TemporaryDirectory(dir=core.scratch_base()) as cwd:
+        try:
+            p = subprocess.run([sys.executable, os.path.abspath(path)], cwd=cwd, env=env, stdout=subprocess.PIPE, stderr=subprocess.STDOUT, text=True, errors="replace", timeout=300)
+        except subprocess.TimeoutExpired:
+            raise core.HarnessError(f"demo {path} timed out")
+    if p.returncode == 0:
+        return []
+    return [core.make_violation("demo:" + os.path.basename(os.path.dirname(path)) + "/" + os.path.basename(path), {"demo": path}, "exit 0", f"exit {p.returncode}: {p.stdout[-400:]}")]
+
+
+def replay_any(mod, rp):
+    if rp.endswith(".py"):
+        return run_demo(rp)
+    with open(rp) as f:
+        body = json.load(f)
+    return mod.replay(body["case"])
+
+
 def main():
     ap = argparse.ArgumentParser()
     ap.add_argument("prop")
@@ -46,10 +72,8 @@ def main():
         return 2
 
     if args.replay:
-        with open(args.replay) as f:
-            body = json.load(f)
         try:
-            vs = mod.replay(body["case"])
+            vs = replay_any(mod, args.replay)
         except core.HarnessError as e:
             print(f"HARNESS-ERROR {e}")
             return 2
@@ -70,9 +94,7 @@ def main():
         replayed = []
         for ent in core.load_findings(prop):
             rp = os.path.join(HERE, ent["replay"])
-            with open(rp) as f:
-                body = json.load(f)
-            vs = mod.replay(body["case"])
+            vs = replay_any(mod, rp)
             sigs = sorted({v["signature"] for v in vs})
             replayed.append({"id": ent["id"], "status": ent["status"], "fails": bool(vs), "signatures": sigs})
             if ent["status"] == "known":
